@@ -12,8 +12,8 @@ import (
 	"os"
 	"path/filepath"
 	"sync"
-	"time"
 	"syscall"
+	"time"
 
 	"github.com/spf13/afero"
 )
@@ -82,8 +82,8 @@ func abs(name string) string {
 	return name
 }
 
-func (s *strictFs) Stat(name string) (os.FileInfo, error) { return s.Fs.Stat(abs(name)) }
-func (s *strictFs) Open(name string) (afero.File, error)  { return s.Fs.Open(abs(name)) }
+func (s *strictFs) Stat(name string) (os.FileInfo, error)  { return s.Fs.Stat(abs(name)) }
+func (s *strictFs) Open(name string) (afero.File, error)   { return s.Fs.Open(abs(name)) }
 func (s *strictFs) Chmod(name string, m os.FileMode) error { return s.Fs.Chmod(abs(name), m) }
 func (s *strictFs) Chown(name string, u, g int) error      { return s.Fs.Chown(abs(name), u, g) }
 func (s *strictFs) Chtimes(name string, a, m time.Time) error {
